@@ -8,9 +8,20 @@ from vlib import hexs
 
 PROP = "C18"
 TRUSTED = [
-    "Model/Factory.lean is a hand model of _factories.py and GettzFunc (tz.py) at dateutil-statement granularity; "
-    "tied on every run by fact.run: same scripts and same thread schedules on the real factories and on the model "
-    "(pc after every statement, identity classes of the results, LRU order, live weak keys)",
+    "the method bodies _TzSingleton.__call__, _TzFactory.instance, _TzOffsetFactory.__call__, _TzStrFactory.__call__, GettzFunc.__call__ / "
+    "set_cache_size / cache_clear are TRANSLATED from /repo's working tree on every run (harness/translate_factory.py -> "
+    "Generated/FactoryPrograms.lean, a statement IR; anything outside the fragment is Untranslatable = broken tie); theorem C18.program_sim "
+    "shows that interpreting the generated programs (flatten + execute the instruction at the pc) IS the state machine of Model/Factory.lean "
+    "about which the theorems are stated; the translator is validated on every run by fact.runir (the interpreter on the generated programs "
+    "vs the instrumented implementation: same scripts and schedules as fact.run); the scheduler's line->pc tables come from the same AST walk",
+    "still hand-modelled (Model/FactoryIR.lean `exec`, trusted): the meaning of the primitives — WeakValueDictionary.get (one read), "
+    ".setdefault (construct, read, write if nothing was read), __setitem__, replacing the dictionary; OrderedDict pop/__setitem__ (touch), "
+    "popitem(last=False), clear, len; `with lock:` = acquire … release on every exit; object construction = allocate, finish __init__, or "
+    "raise; the ghost bookkeeping (hand-over of the reference at the `with` exit, epochs, event log); which method a script operation calls; "
+    "GettzFunc.nocache entered by its result class (its decision logic is Model/GettzResolve.lean, a hand model tied by gettz.resolve); "
+    "garbage collection and reference drops as environment steps",
+    "Model/Factory.lean (the same machine written out pc by pc) is tied additionally by fact.run: same scripts and same thread schedules on "
+    "the real factories and on the model (pc after every statement, identity classes of the results, LRU order, live weak keys)",
     "standard library: one read / one write of the weak dictionary and the removal of a dead entry are single model steps "
     "(WeakValueDictionary.setdefault is modelled as read-then-write, NOT atomic); lock acquire/release give mutual exclusion; "
     "OrderedDict.pop/__setitem__/popitem(last=False)/clear/len have their sequential meaning (they only run under the lock: lock_discipline)",
@@ -504,6 +515,12 @@ def resolve_case(r):
     return {k: r[k] for k in ("op", "tzvar", "tzfiles", "tzpaths", "vendored", "tzname", "name", "impl", "spec")}
 
 
+def ir_request(spec, req):
+    """the same request for `fact.runir`: executed by the interpreter of the programs translated from the source"""
+    assert req.startswith("fact.run ")
+    return "fact.runir %s %s" % ("str" if spec == "tzstr" else "offset", req[len("fact.run "):])
+
+
 # ======================================================================================
 # correspondence
 # ======================================================================================
@@ -513,22 +530,30 @@ def correspondence(ctx):
     # ---- (a) scripted single-thread runs vs the model ----
     runs = scripted_runs(ctx, ctx.budget(80, 1000))
     resp = ctx.driver([r["req"] for r in runs])
-    for r, m in zip(runs, resp):
+    resp_ir = ctx.driver([ir_request(r["spec"], r["req"]) for r in runs])      # translator validation
+    for r, m, mi in zip(runs, resp, resp_ir):
         diffs = S.compare_script(r["obs"], S.parse_model(m))
         ctx.count("scripted_%s" % r["spec"])
         ctx.count("scripted_ops", len(r["ops"]))
         if diffs:
             ctx.mismatch("fact.run(script)", {"spec": r["spec"], "cap": r["cap"], "ops": r["ops"]}, r["obs"], {"model": m, "diffs": diffs})
-    ctx.traces += len(runs)
+        diffs = S.compare_script(r["obs"], S.parse_model(mi))
+        if diffs:
+            ctx.mismatch("fact.runir(script): translated programs vs implementation", {"spec": r["spec"], "cap": r["cap"], "ops": r["ops"]},
+                         r["obs"], {"model": mi, "diffs": diffs})
+    ctx.traces += 2 * len(runs)
     # ---- (b) threads, statement by statement ----
     truns = threaded_runs(ctx)
-    for msg in ctx._c18_shape[:3]:
-        ctx.mismatch("source-shape", msg, "statement table could not be built", "Model/Factory.lean statement list")
-    for msg in sorted(set(m for r in truns for m in r["unmapped"]))[:4]:
-        ctx.mismatch("source-shape", msg, "statement table could not be built", "Model/Factory.lean statement list")
+    # a method outside the translated fragment has no statement table: those runs are scheduled and checked by the oracle
+    # but cannot be compared with the model; the broken tie itself is reported by the translator (Generated/FactoryPrograms,
+    # C18.program_sim) — this replaces the former "source-shape" audit
+    for msg in sorted(set(list(ctx._c18_shape) + [m for r in truns for m in r["unmapped"]]))[:4]:
+        ctx.note("no statement table (translator): " + msg)
+        ctx.count("threaded_runs_without_statement_table", sum(1 for r in truns if r["unmapped"]))
     truns = [r for r in truns if not r["unmapped"]]
     resp = ctx.driver([r["req"] for r in truns])
-    for r, m in zip(truns, resp):
+    resp_ir = ctx.driver([ir_request(r["spec"], r["req"]) for r in truns])
+    for r, m, mi in zip(truns, resp, resp_ir):
         rec = {"labels": r["labels"], "expect": r["expect"], "rets": r["rets"], "all_returned": r["all_returned"],
                "strong": r["strong"], "weak": r["weak"], "cap": r["cap_now"]}
         diffs = S.compare_threads(rec, S.parse_model(m))
@@ -538,7 +563,14 @@ def correspondence(ctx):
             ctx.mismatch("fact.run(threads)", {k: r[k] for k in ("spec", "cap", "scripts", "schedule", "policy")},
                          {"rets": r["rets"], "strong": r["strong"], "weak": r["weak"], "errors": r["errors"]},
                          {"model": m, "diffs": diffs})
-    ctx.traces += len(truns)
+        diffs = S.compare_threads(rec, S.parse_model(mi))
+        if diffs:
+            ctx.mismatch("fact.runir(threads): translated programs vs implementation",
+                         {k: r[k] for k in ("spec", "cap", "scripts", "schedule", "policy")},
+                         {"rets": r["rets"], "strong": r["strong"], "weak": r["weak"], "errors": r["errors"]},
+                         {"model": mi, "diffs": diffs})
+    ctx.count("translator_validation_runs", len(runs) + len(truns))
+    ctx.traces += 2 * len(truns)
     # ---- gettz name resolution vs the model (`gettz.resolve`) ----
     rr = resolve_runs(ctx)
     root = ctx._c18_resolve_root
